@@ -19,6 +19,7 @@ EXPLANATION = ("dense M-spec rhoD (executable, Lean): theorems about it are list
                "specification; see DESIGN). Correspondence: real dense offline monitor vs rhoD as step functions.")
 ASSUMPTIONS = ["until/since are read with the left operand required on the closed interval up to and including the witness "
                "(what the dense monitors implement); signals are right-continuous step functions, last value held"]
+TRUSTED_EXTRA = ["the mirror of the dense offline list algorithms (lean/Rtamt/Dense/Alg.lean, proved equal to rhoD for signals starting at 0) is hand-written: it is tied to rtamt/semantics/stl/dense_time/offline/*.py by comparing the returned sample lists, not by a translator"]
 REGIONS = {}
 
 
@@ -92,13 +93,22 @@ def gen_case(rng, allow=None):
         f = un(inner)
     else:
         f = g.formula(rng.choice([1, 2, 2, 3, 4]))
+    sugar = None
+    if allow is None and rng.random() < 0.06:
+        # the sugar `p unless[a,b] q` (the parser expands it to `always[0,b] p or p until[a,b] q`)
+        p_, q_ = g.formula(rng.choice([0, 1])), g.formula(rng.choice([0, 1]))
+        a_ = rng.randint(0, 4)
+        b_ = a_ + rng.randint(0, 4)
+        f = ("b", "or", ("tb1", "alw", 0, b_, p_), ("tb2", "until", a_, b_, p_, q_))
+        sugar = "out = ((%s) unless[%s,%s] (%s))" % (F.to_text(p_, bound=D.bound_txt), D.bound_txt(a_), D.bound_txt(b_), F.to_text(q_, bound=D.bound_txt))
+        direct = False
     vs = F.variables(f) or ["x"]
     aligned = rng.random() < 0.8
     sig = D.gen_signals(rng, vs, aligned_start=aligned)
     if rng.random() < 0.4:
         sig = {v: [(t, x) for (t, _), x in zip(s_, pattern_values(rng, len(s_)))] for v, s_ in sig.items()}
-    units_seed = rng.randint(0, 10 ** 6) if rng.random() < 0.15 and any(x[0] in ("tb1", "tb2") for x in F.subformulas(f)) else None
-    return {"f": f, "sig": sig, "units_seed": units_seed,
+    units_seed = rng.randint(0, 10 ** 6) if sugar is None and rng.random() < 0.15 and any(x[0] in ("tb1", "tb2") for x in F.subformulas(f)) else None
+    return {"f": f, "sig": sig, "units_seed": units_seed, "text": sugar,
             "stream": ("off-c/direct" if direct else "off-c") + ("" if aligned else "/starts") + ("/units" if units_seed is not None else "")}
 
 
@@ -131,8 +141,8 @@ def explore(ctx, rng, count):
 def replay(ctx, obj):
     f = F.from_proto(obj["formula"])
     sig = {v: [(Fraction(t), float(x)) for t, x in s] for v, s in obj["signals"].items()}
-    if obj.get("units_seed") is not None:
-        (c, v), = D.compare_offline_batch(Ctx(ctx.id, ctx.tier, ctx.seed), [{"f": f, "sig": sig, "stream": "replay", "units_seed": obj["units_seed"]}])
+    if obj.get("units_seed") is not None or obj.get("sugar_text"):
+        (c, v), = D.compare_offline_batch(Ctx(ctx.id, ctx.tier, ctx.seed), [{"f": f, "sig": sig, "stream": "replay", "units_seed": obj.get("units_seed"), "text": obj.get("sugar_text")}])
     else:
         v = D.compare_offline(Ctx(ctx.id, ctx.tier, ctx.seed), f, sig, "replay")
     return (v is None), (v.what if v else "dense offline result equals the dense semantics on the replayed case")
